@@ -196,11 +196,11 @@ func init() {
 	bin("MulTruncate", func(in *Interp, x, y *Term, pos token.Pos) Value { return in.decRange(chopTrunc(Mul(x, y)), pos) })
 	bin("Quo", func(in *Interp, x, y *Term, pos token.Pos) Value {
 		in.bigDivCheck(y, pos)
-		return in.decRange(chopRound(QuoTrunc(Mul(Mul(x, precT), precT), y)), pos)
+		return in.decRange(chopRound(in.E.DivTrunc(Mul(Mul(x, precT), precT), y)), pos)
 	})
 	bin("QuoTruncate", func(in *Interp, x, y *Term, pos token.Pos) Value {
 		in.bigDivCheck(y, pos)
-		return in.decRange(QuoTrunc(Mul(x, precT), y), pos)
+		return in.decRange(in.E.DivTrunc(Mul(x, precT), y), pos)
 	})
 	bin("GT", func(in *Interp, x, y *Term, pos token.Pos) Value { return Gt(x, y) })
 	bin("GTE", func(in *Interp, x, y *Term, pos token.Pos) Value { return Ge(x, y) })
@@ -231,7 +231,7 @@ func init() {
 	reg(D+"QuoInt64", func(in *Interp, fn *ssa.Function, a []Value, pos token.Pos) Value {
 		y := a[1].(*Term)
 		in.bigDivCheck(y, pos)
-		return Dec{QuoTrunc(in.decOf(a[0], pos), y)}
+		return Dec{in.E.DivTrunc(in.decOf(a[0], pos), y)}
 	})
 	reg(D+"MulInt64", func(in *Interp, fn *ssa.Function, a []Value, pos token.Pos) Value {
 		return in.decRange(Mul(in.decOf(a[0], pos), a[1].(*Term)), pos)
@@ -239,7 +239,7 @@ func init() {
 	reg(D+"QuoInt", func(in *Interp, fn *ssa.Function, a []Value, pos token.Pos) Value {
 		y := in.intOf(a[1], pos)
 		in.bigDivCheck(y, pos)
-		return Dec{QuoTrunc(in.decOf(a[0], pos), y)}
+		return Dec{in.E.DivTrunc(in.decOf(a[0], pos), y)}
 	})
 	reg(D+"MulInt", func(in *Interp, fn *ssa.Function, a []Value, pos token.Pos) Value {
 		return in.decRange(Mul(in.decOf(a[0], pos), in.intOf(a[1], pos)), pos)
@@ -276,7 +276,7 @@ func init() {
 	ibin("Mul", func(in *Interp, x, y *Term, pos token.Pos) Value { return in.intRange256(Mul(x, y), pos) })
 	ibin("Quo", func(in *Interp, x, y *Term, pos token.Pos) Value {
 		in.bigDivCheck(y, pos)
-		return BigInt{QuoTrunc(x, y)}
+		return BigInt{in.E.DivTrunc(x, y)}
 	})
 	ibin("Mod", func(in *Interp, x, y *Term, pos token.Pos) Value {
 		in.bigDivCheck(y, pos)
@@ -334,7 +334,7 @@ func init() {
 	reg(I+"QuoRaw", func(in *Interp, fn *ssa.Function, a []Value, pos token.Pos) Value {
 		y := a[1].(*Term)
 		in.bigDivCheck(y, pos)
-		return BigInt{QuoTrunc(in.intOf(a[0], pos), y)}
+		return BigInt{in.E.DivTrunc(in.intOf(a[0], pos), y)}
 	})
 	reg(M+".MinInt", func(in *Interp, fn *ssa.Function, a []Value, pos token.Pos) Value {
 		x, y := in.intOf(a[0], pos), in.intOf(a[1], pos)
